@@ -1989,6 +1989,7 @@ func (ex *Exec) lookup(fr *frame, x *ssa.Lookup) Value {
 type rangeState struct {
 	m     *MapObj
 	order []int
+	keys  []Value // the keys in iteration order, fixed when the loop starts (entries deleted meanwhile are skipped)
 	pos   int
 }
 
@@ -2016,6 +2017,7 @@ func (ex *Exec) rangeInit(v Value) Value {
 				c = ex.chooseFree(len(remaining))
 			}
 			rs.order = append(rs.order, remaining[c])
+			rs.keys = append(rs.keys, m.M.Keys[remaining[c]])
 			remaining = append(remaining[:c:c], remaining[c+1:]...)
 		}
 	}
@@ -2067,9 +2069,22 @@ func (ex *Exec) rangeNext(it VOpaque, x *ssa.Next) Value {
 		}
 		return VTuple{VBool{BoolC(false)}, k, v}
 	}
-	i := rs.order[rs.pos]
-	rs.pos++
-	return VTuple{VBool{BoolC(true)}, rs.m.Keys[i], rs.m.Vals[i]}
+	for rs.pos < len(rs.keys) {
+		key := rs.keys[rs.pos]
+		rs.pos++
+		// Go semantics: an entry removed during the iteration is not produced; the value is the current one
+		if i := ex.mapFind(rs.m, key); i >= 0 {
+			return VTuple{VBool{BoolC(true)}, rs.m.Keys[i], rs.m.Vals[i]}
+		}
+	}
+	var k, v Value
+	if tt.At(1).Type() != nil && !isInvalid(tt.At(1).Type()) {
+		k = ex.zero(tt.At(1).Type())
+	}
+	if !isInvalid(tt.At(2).Type()) {
+		v = ex.zero(tt.At(2).Type())
+	}
+	return VTuple{VBool{BoolC(false)}, k, v}
 }
 
 func isInvalid(t types.Type) bool {
@@ -2086,6 +2101,18 @@ func (ex *Exec) builtin(fr *frame, b *ssa.Builtin, cc *ssa.CallCommon, args []Va
 			panic(goPanic{"value method called using nil pointer"})
 		}
 		return args[0]
+	case "delete":
+		m, ok := args[0].(VMap)
+		if !ok {
+			panic(unsupported{"delete on a non-map"})
+		}
+		if m.M != nil {
+			if i := ex.mapFind(m.M, args[1]); i >= 0 {
+				m.M.Keys = append(append([]Value{}, m.M.Keys[:i]...), m.M.Keys[i+1:]...)
+				m.M.Vals = append(append([]Value{}, m.M.Vals[:i]...), m.M.Vals[i+1:]...)
+			}
+		}
+		return nil
 	case "len":
 		switch x := args[0].(type) {
 		case VSlice:
